@@ -3,12 +3,14 @@
 //! Parts: `alloc_histories` (allocators on raw memory and through shared memory against the
 //! allocation-table model), `alloc_grid` (bounded-exhaustive bucket layouts x start offsets),
 //! `dynamic` (resizable shared memory + view), `port_growth` (publisher data segment growth
-//! with a subscriber holding samples), `port_realloc_limit`.
+//! with a subscriber holding samples), `port.fb.local` / `port.fb.ipc` (flatbuffer loans that grow
+//! while they are being built, subscribers holding samples), `port_realloc_limit`.
 extern crate iceoryx2_bb_loggers;
 
 mod dynamic;
 mod model;
 mod port;
+mod port_fb;
 mod raw;
 
 use model::Known;
@@ -17,12 +19,14 @@ use vcore::{Ctx, Spec};
 const SPEC: Spec = Spec {
     prop: "C15",
     level: "exploration",
-    rule: "alloc_histories: proptest cases (allocator kind out of 11: bb fixed pool <16>/<3>, bb pool, bb bump, one-chunk, cal pool/bump on raw memory, cal pool/bump through process-local and posix shared memory; bucket layout size 1..=257 x alignment 2^0..2^12 incl. sizes that are no multiple of the alignment; first managed byte 0..=63 bytes after a 4096-aligned address; segment size 0..8 buckets + padding; up to 48 (thorough 96) ops Allocate|AllocateZeroed|Deallocate|Grow(front/back, zeroed)|Shrink|Exhaust with request size 0..=bucket+1 and alignment 1..=4096) against an allocation table: every returned block inside the segment, aligned, disjoint from all live blocks, canaries of all live blocks checked after every op, guard bytes around the segment, documented error for every refusal, success whenever the model has room, grow/shrink keep the content, allocate-to-exhaustion count before = after. alloc_grid: every bucket size 1..=33 x alignment 2^0..2^6 x start offset 0..=7 x 3 pool allocators x 2 tail shapes, allocate all / free all / allocate all. dynamic: resizable memory (process-local and posix) with Static/BestFit/PowerOfTwo, hinted layouts incl. non-multiples, ops Allocate|Deallocate|Grow|view Register|view Unregister; table addressed by (segment id, offset), data read back through the view's own mapping, exact model of the active segments of creator and view after every op. port_growth: local and ipc publish-subscribe of [u8] with payload alignment 2^0..2^6, BestFit/PowerOfTwo, initial_max_slice_len 1..=4, buffer 1..=4, max borrow 1..=4, max_subscribers 1 (so that all preallocated chunks are needed), sends of growing length, receive, release; every held sample verified after every op. port_realloc_limit: 300 strictly growing loans. non-trivial = (bucket size not a multiple of the alignment or misaligned start) and >= 2 blocks live at once; dynamic: a chunk registered by the view was held across a segment growth; port: a sample was held by the subscriber across a certain reallocation; distinct = hash of the whole case",
+    rule: "alloc_histories: proptest cases (allocator kind out of 11: bb fixed pool <16>/<3>, bb pool, bb bump, one-chunk, cal pool/bump on raw memory, cal pool/bump through process-local and posix shared memory; bucket layout size 1..=257 x alignment 2^0..2^12 incl. sizes that are no multiple of the alignment; first managed byte 0..=63 bytes after a 4096-aligned address; segment size 0..8 buckets + padding; up to 48 (thorough 96) ops Allocate|AllocateZeroed|Deallocate|Grow(front/back, zeroed)|Shrink|Exhaust with request size 0..=bucket+1 and alignment 1..=4096) against an allocation table: every returned block inside the segment, aligned, disjoint from all live blocks, canaries of all live blocks checked after every op, guard bytes around the segment, documented error for every refusal, success whenever the model has room, grow/shrink keep the content, allocate-to-exhaustion count before = after. alloc_grid: every bucket size 1..=33 x alignment 2^0..2^6 x start offset 0..=7 x 3 pool allocators x 2 tail shapes, allocate all / free all / allocate all. dynamic: resizable memory (process-local and posix) with Static/BestFit/PowerOfTwo, hinted layouts incl. non-multiples, ops Allocate|Deallocate|Grow|view Register|view Unregister; table addressed by (segment id, offset), data read back through the view's own mapping, exact model of the active segments of creator and view after every op. port_growth: local and ipc publish-subscribe of [u8] with payload alignment 2^0..2^6, BestFit/PowerOfTwo, initial_max_slice_len 1..=4, buffer 1..=4, max borrow 1..=4, max_subscribers 1 (so that all preallocated chunks are needed), sends of growing length, receive, release; every held sample verified after every op. port.fb.local / port.fb.ipc: publish-subscribe of Flatbuffer<UnboundedData> (example schema) with a 16 byte user header, BestFit/PowerOfTwo, initial_reserved_memory 1..=16384 (4 size classes), max_loaned_samples 1..=3, buffer 1..=4, max borrow 1..=4, history 0..=2, safe overflow, optional second subscriber that joins and leaves; ops Begin (loan_flatbuffer) | Append(loan, n entries, optionally beyond the largest loan so far) | Finish(loan, send or drop) | DropLoan | Receive(sub) | Release(sub, k) | JoinOrLeave; after every op every held sample (slice address and length, bytes against the copy taken at receive time, decoded title and entries, user header) and the used part of every unfinished loan are re-verified, loans and held samples must be pairwise disjoint, what a loan contained is the tail of what it contains after growing, received bytes = bytes the publisher saw before send, delivery against a FIFO model with overflow, loans within the limits never fail, at the end max_loaned_samples loans succeed again, one more sample is delivered and (ipc) at most 1 + min(history, sent) data segments of the publisher exist. port_realloc_limit: 300 strictly growing loans. non-trivial = (bucket size not a multiple of the alignment or misaligned start) and >= 2 blocks live at once; dynamic: a chunk registered by the view was held across a segment growth; port: a sample was held by the subscriber across a certain reallocation; port.fb: the buffer of a loan moved (Sender::grow) while a subscriber held an earlier sample and the publisher loaned again afterwards; distinct = hash of the whole case",
     assumptions: &[
         "the unsafe contracts are respected by construction: blocks are released / resized exactly once with the layout they currently have; the view unregisters before the creator deallocates; bump allocators forget everything on release",
         "segment bounds of shared-memory backed allocators are known only up to the alignment padding (payload_start_address .. +size); the raw-memory variants check exact bounds and guard bytes",
         "process-local shared memory lives on the heap: bucket counts of its cases depend on heap addresses, so a replay of such a case can see one bucket more or less",
         "inputs that trigger an open known finding whose effect would destroy the case (pool memory shorter than its alignment padding inside shared memory, growing a chunk of an older segment) are left out and counted under excluded_by_known_finding",
+        "port.fb: the capacity of a chunk is not observable through the API; the generator keeps lower/upper bounds of it (a fresh loan is at least as large as the largest loan so far) to leave out, while the findings are open, growth of a loan whose chunk lives in an older segment (dynamic.grow_of_chunk_in_old_segment_returns_foreign_memory), the send of a loan before the unsent grown loan that created its segment (fb.grown_sample_sent_with_wrong_chunk_size_breaks_connection_chunk_index) and more than ~180 estimated reallocations per publisher (documented limit 256, recorded panic at 255); bytes behind the serialized data that payload_bytes() returns because of fb.payload_bytes_of_grown_sample_reach_past_chunk_by_header_length are not compared",
+        "port.fb: the second subscriber's history samples are optional in the delivery model (their exact number is C01's subject); it releases its samples before it is dropped",
         "memory errors that leave no trace in returned values (reads of unmapped memory) would show as a dying worker, not as an oracle message; the ASan/libFuzzer stage of DESIGN C15 is not part of this binary",
     ],
     watchdog_quick_s: 1800,
@@ -53,6 +57,14 @@ fn body(ctx: &mut Ctx) {
     let n = ctx.scale(1_000, 30_000);
     ctx.proptest("port_growth", n, port::case_strategy(ctx.scale(32, 64)), |c, obs| port::run_case(c, &known, obs));
     known.flush(ctx, "port_growth");
+
+    // loans that grow while they are being built (Flatbuffer payloads), subscribers holding samples
+    let fbk = port_fb::FbKnown::new(ctx);
+    for (part, ipc, n) in [("port.fb.local", false, ctx.scale(6_000u64, 72_000)), ("port.fb.ipc", true, ctx.scale(2_000, 24_000))] {
+        ctx.proptest(part, n, port_fb::case_strategy(ipc, ctx.scale(40, 64)), |c, obs| port_fb::run_case(c, &known, &fbk, obs));
+        known.flush(ctx, part);
+        fbk.flush(ctx, part);
+    }
 
     let limit_cases: Vec<port::LimitCase> = [false, true].into_iter().flat_map(|ipc| [1u16, 16].into_iter().map(move |step| port::LimitCase { ipc, step })).collect();
     ctx.enumerate("port_realloc_limit", "{local, ipc} x growth step {1, 16}: 300 strictly growing loans with BestFit", limit_cases.into_iter(), |c, obs| port::run_limit_case(c, &known, obs));
